@@ -23,10 +23,11 @@ def nearestIdx (freq : List α) (f : α) : Nat :=
   | [] => 0
   | x :: xs => nearestIdxAux f xs 1 0 (absA (x - f))
 
-/-- `_search_range_to_index_range` -/
+/-- `_search_range_to_index_range`: the slice runs from the sample nearest to the lower limit through the sample
+nearest to the upper limit (both are edges of the slice and can never be reported as peaks) -/
 def rangeToIdx (freq : List α) (r : Option α × Option α) : Nat × Nat :=
   (match r.1 with | none => 0 | some lo => nearestIdx freq lo,
-   match r.2 with | none => freq.length | some hi => nearestIdx freq hi)
+   match r.2 with | none => freq.length | some hi => nearestIdx freq hi + 1)
 
 /-- python slice `l[lo:hi]` for `0 ≤ lo, hi` -/
 def pySlice {β : Type} (l : List β) (lo hi : Nat) : List β := (l.take hi).drop lo
